@@ -6,7 +6,7 @@ import modelx as mx
 from modelx.core.errors import FormulaError, NoneReturnedError, DeepReferenceError
 import execlib
 
-ERR = [(ZeroDivisionError, "zero"), (KeyError, "key"), (ValueError, "value"), (TypeError, "type"),
+ERR = [(KeyboardInterrupt, "base"), (ZeroDivisionError, "zero"), (KeyError, "key"), (ValueError, "value"), (TypeError, "type"),
        (NoneReturnedError, "none"), (DeepReferenceError, "deep"), (NameError, "name"), (AttributeError, "name")]
 
 
@@ -24,22 +24,47 @@ class Run:
         self.w = world
         self.log = []
         self.m = m = mx.new_model("M")
-        self.spaces = [m.new_space("S%d" % i) for i in range(world["nspaces"])]
+        # cells marked "derived" are defined in a base space N<k> of their space S<k> (second base F<k> is the
+        # fallback definer): the executor model sees an ordinary cells, the library a derived copy
+        der_spaces = {c["space"] for c in world["cells"] if c.get("derived")}
+        self.near, self.far = {}, {}
+        self.spaces = []
+        for i in range(world["nspaces"]):
+            if i in der_spaces:
+                self.near[i] = m.new_space("N%d" % i)
+                self.far[i] = m.new_space("F%d" % i)
+                self.spaces.append(m.new_space("S%d" % i, bases=[self.near[i], self.far[i]]))
+            else:
+                self.spaces.append(m.new_space("S%d" % i))
         m.LOG = lambda cid, key: self.log.append([cid, [None if v is None else int(v) for v in key]])
         for r in world["refs"]:
             owner = m if r["space"] is None else self.spaces[r["space"]]
             setattr(owner, "r%d" % r["rid"], r["val"])
-        self.cells = []
+        self.definer = {}
         for c in world["cells"]:
-            cells = self.spaces[c["space"]].new_cells(execlib.cname(c), formula=execlib.render_cell(c, world))
-            self.cells.append(cells)
+            if c.get("derived"):
+                self.near[c["space"]].new_cells(execlib.cname(c), formula=execlib.render_cell(c, world))
+                fc = self.far[c["space"]].new_cells(execlib.cname(c), formula=execlib.render_cell(dict(c, body=c["far_body"]), world))
+                if not c["cached"]:
+                    fc.is_cached = False
+                self.definer[c["cid"]] = "near"
+            else:
+                self.spaces[c["space"]].new_cells(execlib.cname(c), formula=execlib.render_cell(c, world))
+        self.cells = [self.spaces[c["space"]].cells[execlib.cname(c)] for c in world["cells"]]
         for c, cells in zip(world["cells"], self.cells):
             if c["allow_none"]:
                 cells.allow_none = True
             if not c["cached"]:
-                cells.is_cached = False
+                self.def_cells(c).is_cached = False
         mx.set_recursion(world["maxdepth"])
         self.impl2cid = {cells._impl: c["cid"] for c, cells in zip(world["cells"], self.cells)}
+
+    def def_cells(self, c):
+        """the cells object through which definitions of world cells c are edited"""
+        if c.get("derived"):
+            sp = self.near if self.definer[c["cid"]] == "near" else self.far
+            return sp[c["space"]].cells[execlib.cname(c)]
+        return self.spaces[c["space"]].cells[execlib.cname(c)]
 
     def ckey(self, key):
         return [None if v is None else int(v) for v in key]
@@ -50,7 +75,8 @@ class Run:
 
     def call(self, cells, key, spelling, c):
         if spelling == "kw":
-            return cells(**{"p%d" % i: v for i, v in enumerate(key)})
+            # keywords deliberately NOT in declaration order: binding must normalise them
+            return cells(**{"p%d" % i: v for i, v in reversed(list(enumerate(key)))})
         if spelling == "getitem" and len(key) >= 1:
             return cells[tuple(key) if len(key) > 1 else key[0]]
         if spelling == "value" and len(key) == 0:
@@ -61,7 +87,7 @@ class Run:
                 k.pop()
             return cells(*k)
         if spelling == "mixed" and len(key) >= 2:
-            return cells(key[0], **{"p%d" % i: v for i, v in enumerate(key) if i >= 1})
+            return cells(key[0], **{"p%d" % i: v for i, v in reversed(list(enumerate(key))) if i >= 1})
         return cells(*key)
 
     def do(self, op):
@@ -76,6 +102,9 @@ class Run:
                 except FormulaError:
                     out = ["err", kind_of(mx.get_error())]
                     tb = [[self.impl2cid[n.obj._impl], self.ckey(n.args), ln] for n, ln in mx.get_traceback()]
+                except BaseException as e:
+                    # the top-level call must raise FormulaError carrying the original exception
+                    out = ["err", "other:raw " + type(e).__name__ + ":" + str(e)[:60]]
             elif t == "setv":
                 try:
                     k = op[2]
@@ -96,11 +125,29 @@ class Run:
             elif t == "clearall":
                 self.cells[op[1]].clear_all(); out = ["ok"]
             elif t == "setf":
-                c = dict(op[2]); self.w["cells"][op[1]] = c
-                self.cells[op[1]].formula = execlib.render_cell(c, self.w); out = ["ok"]
+                c = dict(op[2]); c["derived"] = self.w["cells"][op[1]].get("derived", False)
+                c["far_body"] = self.w["cells"][op[1]].get("far_body")
+                cached_now = self.w["cells"][op[1]]["cached"]
+                c["cached"] = cached_now
+                self.w["cells"][op[1]] = c
+                src = execlib.render_cell(c, self.w)
+                how = op[3] if len(op) > 3 else "direct"
+                if c["derived"] and how == "fallback" and self.definer[c["cid"]] == "near":
+                    # delete the near definition: the derived copy re-derives from the far base
+                    del self.near[c["space"]].cells[execlib.cname(c)]
+                    self.definer[c["cid"]] = "far"
+                else:
+                    self.def_cells(c).formula = src
+                self.cells[op[1]] = self.spaces[c["space"]].cells[execlib.cname(c)]
+                self.impl2cid[self.cells[op[1]]._impl] = c["cid"]
+                out = ["ok"]
             elif t == "setcached":
                 self.w["cells"][op[1]]["cached"] = op[2]
-                self.cells[op[1]].is_cached = op[2]; out = ["ok"]
+                wc = self.w["cells"][op[1]]
+                self.def_cells(wc).is_cached = op[2]
+                if wc.get("derived") and self.definer[wc["cid"]] == "near":
+                    self.far[wc["space"]].cells[execlib.cname(wc)].is_cached = op[2]   # keep the fallback definition in step
+                out = ["ok"]
             elif t == "setref":
                 r = self.w["refs"][op[1]]
                 owner = self.m if r["space"] is None else self.spaces[r["space"]]
@@ -109,7 +156,7 @@ class Run:
                 mx.set_recalc(op[1]); out = ["ok"]
             else:
                 raise RuntimeError("unknown op %r" % (op,))
-        except Exception as e:      # anything unexpected is reported, not swallowed
+        except BaseException as e:      # anything unexpected is reported, not swallowed
             out = ["err", "other:" + type(e).__name__ + ":" + str(e)[:80]]
         return out, tb
 
@@ -145,7 +192,12 @@ def main():
             obs = []
             for op in case["ops"]:
                 out, tb = run.do(op)
-                ob = run.observe(out, tb)
+                try:
+                    ob = run.observe(out, tb)
+                except BaseException as e:      # the public views themselves are broken
+                    ob = {"out": ["err", "other:observation failed " + type(e).__name__ + ":" + str(e)[:60]], "data": [], "inputs": [],
+                          "nodes": [], "edges": [], "redges": [], "tb": None, "log": []}
+                    run.log = []
                 ob["log_ordered"] = op[0] != "setv"
                 obs.append(ob)
             res.append({"obs": obs})
